@@ -14,10 +14,13 @@ from concurrent.futures import ThreadPoolExecutor
 ROOT = os.path.dirname(os.path.dirname(os.path.abspath(__file__)))
 COQ = os.path.join(ROOT, "coq")
 CACHE = os.path.join(ROOT, ".cache")
-TARGET = os.path.join(CACHE, "target")
+# overrides used only by lib/seedtest.py (isolated runs against a mutated copy of the repository)
+TARGET = os.environ.get("VERIF_TARGET_DIR") or os.path.join(CACHE, "target")
 BIN = os.path.join(TARGET, "verif")
-HARNESS = os.path.join(ROOT, "harness")
-REPO = "/repo"
+HARNESS = os.environ.get("VERIF_HARNESS_DIR") or os.path.join(ROOT, "harness")
+REPO = os.environ.get("VERIF_REPO") or "/repo"
+OUTDIR = os.environ.get("VERIF_OUT_DIR") or ROOT      # evidence/ and replays/ go here
+TAG = os.environ.get("VERIF_TAG", "")
 NCPU = os.cpu_count() or 8
 
 ENV = dict(os.environ)
@@ -232,6 +235,7 @@ def coq_eval(name, text, timeout=600):
     """compile a generated file under coq/Cases and return (rc, stdout)"""
     d = os.path.join(COQ, "Cases")
     os.makedirs(d, exist_ok=True)
+    name = TAG + name
     path = os.path.join(d, name + ".v")
     with open(path, "w") as f:
         f.write(text)
@@ -292,7 +296,7 @@ class Run:
         self.notes = []
         self.workdir = os.path.join(CACHE, "runs", prop)
         os.makedirs(self.workdir, exist_ok=True)
-        os.makedirs(os.path.join(ROOT, "evidence"), exist_ok=True)
+        os.makedirs(os.path.join(OUTDIR, "evidence"), exist_ok=True)
         self.known = known_findings(prop)
         self.obligations = 0
         self.discharged = 0
@@ -346,7 +350,7 @@ class Run:
     # -- verdicts ----------------------------------------------------
     def replay_path(self, tag):
         h = hashlib.sha1(tag.encode()).hexdigest()[:10]
-        d = os.path.join(ROOT, "replays")
+        d = os.path.join(OUTDIR, "replays")
         os.makedirs(d, exist_ok=True)
         return os.path.join(d, "%s_%s.json" % (self.prop, h))
 
@@ -368,11 +372,11 @@ class Run:
         path = self.replay_path(key + what)
         rec = {"property": self.prop, "kind": kind, "theorem_or_tie": theorem, "key": key, "what": what,
                "detail": detail, "seed": self.seed, "tier": self.tier, "repo_rev": repo_rev(),
-               "replay_cmd": "./check %s --replay %s" % (self.prop, os.path.relpath(path, ROOT))}
+               "replay_cmd": "./check %s --replay %s" % (self.prop, os.path.relpath(path, OUTDIR))}
         with open(path, "w") as f:
             json.dump(rec, f, indent=1, ensure_ascii=False)
         if len(self.violations) < 20:
-            print("VIOLATION property=%s replay=%s" % (self.prop, os.path.relpath(path, ROOT)), flush=True)
+            print("VIOLATION property=%s replay=%s" % (self.prop, os.path.relpath(path, OUTDIR)), flush=True)
             self.log("  ", what)
         self.violations.append((path, what))
         return True
@@ -398,7 +402,7 @@ class Run:
                        "replay_cmd": "./check %s %s" % (self.prop, self.tier)}
                 with open(path, "w") as f:
                     json.dump(rec, f, indent=1, ensure_ascii=False)
-                print("VIOLATION property=%s replay=%s no-failing-input-found" % (self.prop, os.path.relpath(path, ROOT)), flush=True)
+                print("VIOLATION property=%s replay=%s no-failing-input-found" % (self.prop, os.path.relpath(path, OUTDIR)), flush=True)
                 self.violations.append((path, b["what"]))
         cov = self.coverage
         cov["obligations"] = self.obligations
@@ -414,7 +418,7 @@ class Run:
         ev = {"property_id": self.prop, "tier": self.tier, "seed": self.seed, "level": self.level,
               "coverage": cov, "assumptions": self.assumptions, "wall_s": round(time.time() - self.t0, 1),
               "violations": len(self.violations), "repo_rev": repo_rev(), "notes": self.notes}
-        with open(os.path.join(ROOT, "evidence", self.prop + ".json"), "w") as f:
+        with open(os.path.join(OUTDIR, "evidence", self.prop + ".json"), "w") as f:
             json.dump(ev, f, indent=1, ensure_ascii=False)
         self.log("done: %d violation(s), %d known finding(s), %.0fs" % (len(self.violations), len(self.known_hits), time.time() - self.t0))
         return 1 if self.violations else 0
